@@ -101,6 +101,7 @@ class EngineDriver(object):
         self.engine = None
         self.logcap = None
         self.wire_failures = []
+        self.resp_wire_failures = []
         if capture_logs:
             self.logcap = LogCapture()
             root = logging.getLogger()
@@ -165,6 +166,12 @@ class EngineDriver(object):
             # (recorded in wire_failures) is handed to the engine as built
             try:
                 data = A.encode(msg) if kv is None else A.encode(msg, kv)
+            except Exception as e:
+                # no client can put this request on the wire under this version: not a request
+                out = {"kind": "unsendable", "exc": type(e).__name__, "msg": str(e), "items": [], "count": 0,
+                       "ver": list(ver), "reason": "", "msgc": ""}
+                return (out, None) if raw else out
+            try:
                 msg = A.decode_request(data)
             except Exception as e:
                 self.wire_failures.append((req, repr(e)))
@@ -181,8 +188,23 @@ class EngineDriver(object):
             return (out, None) if raw else out
         if self.wire:
             rv = A.KV((pv.major, pv.minor))
-            rdata = A.encode(resp) if rv is None else A.encode(resp, rv)
-            resp2 = A.decode_response(rdata)
+            try:
+                rdata = A.encode(resp) if rv is None else A.encode(resp, rv)
+            except Exception as e:
+                # the server cannot put its own answer on the wire
+                out = A.abs_response(resp, self.intern)
+                out["unenc"] = "%s: %s" % (type(e).__name__, e)
+                self.resp_wire_failures.append((req, "encode " + out["unenc"]))
+                return (out, None) if raw else out
+            try:
+                resp2 = A.decode_response(rdata)
+            except Exception as e:
+                # the library's own decoder cannot read what the server sent (client side, C01/C19)
+                out = A.abs_response(resp, self.intern)
+                out["undec"] = "%s: %s" % (type(e).__name__, e)
+                out["nbytes"] = len(rdata)
+                self.resp_wire_failures.append((req, "decode " + out["undec"]))
+                return (out, rdata) if raw else out
             out = A.abs_response(resp2, self.intern)
             out["nbytes"] = len(rdata)
             return (out, rdata) if raw else out
